@@ -49,7 +49,7 @@ theorem Cpp.memberStep_sizer_p10 (e : Endian) (all : List Member) (n : String) (
     (hs : isSizer n all = true) (c pos1 : Nat)
     (hdec : Cpp.decScalar e (Cpp.sizerPrimOf n all).size (Cpp.sizerPrimOf n all).isSigned data pos rs = .ok (c : Int) pos1 rs)
     (hlim : ∀ m, all.find? (fun m => decide (m.kind.sizer? = some n)) = some m → ∀ s l, m.kind = .limited s l → c ≤ l)
-    (hrem : c ≤ Cpp.remaining data.length pos1) (hrl : c ≤ Cpp.resizeLimit) :
+    (hrem : c * Cpp.resizeElem n all ≤ Cpp.remaining data.length pos1) (hrl : c ≤ Cpp.resizeLimit) :
     Cpp.memberStep e all n t .plain msize data pos rs lens elem =
       (.ok (Val.sizer, boundHints all n c ++ lens) pos1 (c :: rs), pos1) := by
   unfold Cpp.memberStep
@@ -58,6 +58,8 @@ theorem Cpp.memberStep_sizer_p10 (e : Endian) (all : List Member) (n : String) (
     rw [if_neg (by omega)]; simp
   rw [hc]
   clear hc
+  have hdiv : c ≤ Cpp.remaining data.length pos1 / Cpp.resizeElem n all :=
+    (Nat.le_div_iff_mul_le (Cpp.one_le_resizeElem n all)).2 hrem
   split
   · rename_i l heq
     have hle : c ≤ l := by
@@ -75,6 +77,19 @@ theorem Cpp.memberStep_sizer_p10 (e : Endian) (all : List Member) (n : String) (
     rfl
   · rw [if_neg (by simp), if_neg (by omega), if_neg (by omega)]
     rfl
+
+/- the former hypothesis `hrem : c ≤ Cpp.remaining data.length pos1` of `Cpp.memberStep_sizer_p10` is no longer
+   sufficient: `struct { u8 n; u64 a<>(n); }` on the bytes `01 00 00 00`: the counter 1 is at most the 3 bytes that
+   follow it, but `1 > 3 / 8`, so `do_decode_resize` now returns false -/
+example :
+    let all : List Member := [.mk "n" (.prim .u8) .plain, .mk "a" (.prim .u64) (.dyn "n" 0)]
+    let data : Bytes := [1, 0, 0, 0]
+    isSizer "n" all = true ∧
+    Cpp.decScalar .little (Cpp.sizerPrimOf "n" all).size (Cpp.sizerPrimOf "n" all).isSigned data 0 [] = .ok (1 : Int) 1 [] ∧
+    1 ≤ Cpp.remaining data.length 1 ∧ Cpp.resizeElem "n" all = 8 ∧
+    Cpp.memberStep .little all "n" (.prim .u8) .plain 1 data 0 [] [] (fun q r => Cpp.decTy .little (.prim .u8) data q r) =
+      (.fail [], 1) := by
+  refine ⟨by decide, rfl, by decide, by decide, rfl⟩
 
 /-- positions reached by padding statements are relative to the struct start when that is aligned -/
 theorem Cpp.applyPad_base_p10 (p : Int) (base off1 : Nat) (h : p < 0 → p.natAbs ∣ base) :
